@@ -198,8 +198,8 @@ def cone_aabb(cone2origin, radius, height):
     """
     pa = cone2origin[:3, 3]
     pb = cone2origin[:3, 3] + height * cone2origin[:3, 2]
-    a = pb - pa
-    e = np.sqrt(1.0 - a * a / (height * height))
+    a = cone2origin[:3, 2]
+    e = np.sqrt(np.maximum(0.0, 1.0 - a * a))
     return np.minimum(pa - e * radius, pb), np.maximum(pa + e * radius, pb)
 
 
